@@ -118,8 +118,9 @@ func (i *FSMInstance) Do(event fsm.Event, args ...interface{}) (result *fsm.Resp
 
 	result, err = i.machine.Do(event, args...)
 
-	// On route errors result will be nil
-	if result != nil {
+	// On route errors result will be nil; an event refused by its callback comes with an empty response and leaves the
+	// machine, and therefore the dump, in the state it was
+	if result != nil && err == nil {
 		i.dump.State = result.State
 
 		dump, dumpErr = i.dump.Marshal()
